@@ -44,7 +44,7 @@ func runC16(c *core.Ctx) {
 	}
 	if pi%9 == 4 {
 		// many arguments
-		for len(p.Args) < 5+pi%4 {
+		for len(p.Args) < 5+pi%8 { // up to twelve arguments: usage lines well beyond 80 columns
 			p.Args = append(p.Args, &ArgDecl{Name: "tmp", Multi: true})
 		}
 	}
@@ -52,7 +52,7 @@ func runC16(c *core.Ctx) {
 		a.EnvSet = pi%3 == 0 && c.R.Intn(2) == 0 // a set environment variable must not change the generated spec
 	}
 	// argument names: some are suffixes / prefixes of one another
-	names := []string{"X", "Y", "Z_2", "SRC", "SRC_FILE", "FILE", "C", "DST", "DST2", "S"}
+	names := []string{"X", "Y", "Z_2", "SRC", "SRC_FILE", "FILE", "C", "DST", "DST2", "S", "ARGUMENT_NUMBER_11", "ARGUMENT_NUMBER_12", "ARGUMENT_NUMBER_13"}
 	c.R.Shuffle(len(names), func(i, j int) { names[i], names[j] = names[j], names[i] })
 	for i, a := range p.Args {
 		a.Name = names[i]
@@ -119,7 +119,7 @@ func runC16(c *core.Ctx) {
 			c.Inc("second_runs_equal")
 		}
 	}
-	if c.Index%10 == 0 {
+	if c.Index%10 == 0 || (len(p.Args) > 4 && c.Index%2 == 0) {
 		c.Journal(CaseDesc{Decl: d.Decl, Spec: expl.Spec, Argv: []string{"--help"}, Note: "usage line of both twins"})
 		ha := usageLine(drive.Run(single(p), []string{"--help"}).Stderr)
 		hb := usageLine(drive.Run(single(expl), []string{"--help"}).Stderr)
